@@ -324,6 +324,70 @@ Theorem T_C10mp_nonseekable_no_silent_difference_adaptive : forall K data narrow
 Proof. exact client_nonseekable_no_silent. Qed.
 Print Assumptions T_C10mp_nonseekable_no_silent_difference_adaptive.
 
+(* EXACT CLASS.  On a non-seekable stream the answers are the string reader's IF AND ONLY IF no SetPosition of
+   the run leaves the cached window (F16b's class is the exact complement at the MsgPack level) ... *)
+Theorem T_C10mp_nonseekable_exact_class : forall K data narrow widen fuel o ops,
+  (8 <= K)%nat -> fits_streamoff data -> bytes_ok data -> (length data < fuel)%nat ->
+  forallb (rop_ok data) ops = true ->
+  (mps_run_bsr narrow widen K (stream_of data false) fuel o ops = Ok (str_run narrow widen data o ops) <->
+   nonseek_ok narrow widen K data fuel o ops = true).
+Proof. exact seq_nonseekable_exact. Qed.
+Print Assumptions T_C10mp_nonseekable_exact_class.
+
+(* ... and in the complement the run is a prefix of the string reader's answers followed by InputOutputError *)
+Theorem T_C10mp_nonseekable_nonlocal_ends_in_io_error : forall K data narrow widen fuel o ops,
+  (8 <= K)%nat -> fits_streamoff data -> bytes_ok data -> (length data < fuel)%nat ->
+  forallb (rop_ok data) ops = true ->
+  nonseek_ok narrow widen K data fuel o ops = false ->
+  exists pre, mps_run_bsr narrow widen K (stream_of data false) fuel o ops = Ok (pre ++ [AIOErr]).
+Proof. exact seq_nonseekable_nonlocal. Qed.
+Print Assumptions T_C10mp_nonseekable_nonlocal_ends_in_io_error.
+
+(* A CLIENT CLASS inside it, independent of K and of the data: forward_op = ReadValue for every integer / bool
+   target and nullptr, ReadBinary, SkipValue, IsEnd — the calls that neither look ahead into an ext header nor
+   seek (since e491e27 SkipValueImpl reads through the value).  Such a client gets exactly the memory reader's
+   answers from a non-seekable stream: every byte string (also ill-formed), every chunk size >= 8. *)
+Theorem T_C10mp_nonseekable_forward_client : forall K data narrow widen fuel o ops,
+  (8 <= K)%nat -> fits_streamoff data -> bytes_ok data -> (length data < fuel)%nat ->
+  forallb forward_op ops = true ->
+  mps_run_bsr narrow widen K (stream_of data false) fuel o ops = Ok (str_run narrow widen data o ops).
+Proof. exact forward_nonseekable_equals_memory. Qed.
+Print Assumptions T_C10mp_nonseekable_forward_client.
+
+(* the same for every ADAPTIVE client all of whose possible calls are forward_op calls (client_forward: its
+   decisions may depend on everything it has seen): same transcript, same result *)
+Theorem T_C10mp_nonseekable_forward_adaptive_client : forall K data narrow widen fuel o (A : Type) (c : client A),
+  (8 <= K)%nat -> fits_streamoff data -> bytes_ok data -> (length data < fuel)%nat ->
+  client_forward c ->
+  mps_client_bsr narrow widen K (stream_of data false) fuel o c = Ok (str_client_run narrow widen data o c).
+Proof. exact forward_client_nonseekable_equals_memory. Qed.
+Print Assumptions T_C10mp_nonseekable_forward_adaptive_client.
+
+(* A LARGER CLIENT CLASS, decided on the string reader's run and independent of K and of the stream:
+   lookahead_free = the client never calls SetPosition, and its look-ahead calls (ReadValueType, ReadValue(float /
+   double / string_view / CBinTimestamp), ReadArraySize / ReadMapSize / ReadBinarySize) never stand in front of an
+   ext-family value; forward_op calls are free.  In particular: every document without ext values, read without
+   rewinding. *)
+Theorem T_C10mp_nonseekable_lookahead_client : forall K data narrow widen fuel o ops,
+  (8 <= K)%nat -> fits_streamoff data -> bytes_ok data -> (length data < fuel)%nat ->
+  forallb (rop_ok data) ops = true ->
+  lookahead_free narrow widen data o ops data = true ->
+  mps_run_bsr narrow widen K (stream_of data false) fuel o ops = Ok (str_run narrow widen data o ops).
+Proof. exact lookahead_nonseekable_equals_memory. Qed.
+Print Assumptions T_C10mp_nonseekable_lookahead_client.
+
+Example T_C10mp_nonseekable_lookahead_examples :
+  lookahead_free no_narrow id_widen straddle_doc skip_all
+    [RdType; RdStr; RdStr; RdInt (mkIty false 16); RdArr; RdInt u8t; RdNil; RdType; RdF64] straddle_doc = true /\
+  mps_run_bsr no_narrow id_widen 8 (stream_of straddle_doc false) 100 skip_all
+    [RdType; RdStr; RdStr; RdInt (mkIty false 16); RdArr; RdInt u8t; RdNil; RdType; RdF64] =
+    Ok [AOkAt (VType TStr) 0; AOkAt (VBytes [0x61; 0x62; 0x63]) 4; AOkAt (VBytes [1; 2; 3; 4; 5; 6; 7; 8; 9; 10]) 16;
+        AOkAt (VInt 256) 19; AOkAt (VNum 2) 20; AOkAt (VInt 1) 21; AOkAt VUnit 22; AOkAt (VType TFloat) 22;
+        AOkAt (VNum 0x3F800000) 27] /\
+  lookahead_free no_narrow id_widen ns_ts_doc throw_all (nils 7 ++ [RdTs]) ns_ts_doc = false.
+Proof. exact lookahead_examples. Qed.
+Print Assumptions T_C10mp_nonseekable_lookahead_examples.
+
 (* EQUAL ANSWERS: "stream = memory on a non-seekable stream" is false (witness: the timestamp below, an
    InputOutputError on a well-formed document) ... *)
 Theorem T_C10mp_nonseekable_refuted :
